@@ -20,6 +20,8 @@ type srv struct {
 	ID  string
 	URL string
 	Ev  lab.Event // the serving event (node: carries routes)
+	// Pending holds events that arrived while waiting for a script acknowledgement (normally none)
+	Pending []lab.Event
 }
 
 func serveGo(ch *lab.Child, svcs []string, hook string, mock bool) (*srv, error) {
@@ -50,8 +52,13 @@ func serveTS(ch *lab.Child, file, factory string, extra map[string]any) (*srv, e
 	return &srv{ch: ch, ID: id, URL: ev.Str("url"), Ev: ev}, nil
 }
 
+// Script installs the handler script and waits until the child's command loop has applied it
+// (requests sent by the driver over TCP are not ordered with the command pipe otherwise).
 func (s *srv) Script(rpc string, sc map[string]any) {
 	_ = s.ch.Send(map[string]any{"op": "script", "srv": s.ID, "rpc": rpc, "script": sc})
+	id := newID("y")
+	evs, _, _ := s.ch.Do(map[string]any{"op": "sync", "id": id}, 30*time.Second, "synced")
+	s.Pending = append(s.Pending, evs...)
 }
 
 func (s *srv) Stop() {
